@@ -155,7 +155,7 @@ var table = []Control{
 	{Name: "help3-long-help-on-error", Rule: "HELP-3", File: fCmds, Old: "\t\tfmt.Fprintf(stdErr, \"Error: %s\\n\", err.Error())\n\t\tc.PrintHelp()", New: "\t\tfmt.Fprintf(stdErr, \"Error: %s\\n\", err.Error())\n\t\tc.PrintLongHelp()"},
 	// ---- GLOB
 	{Name: "glob1-global-write", Rule: "GLOB-1", File: fCmds, Old: "func (c *Cmd) onError(err error) {\n", New: "func (c *Cmd) onError(err error) {\n\tif err != nil {\n\t\tstdOut = stdErr\n\t}\n"},
-	{Name: "glob2-global-map", Rule: "GLOB-2", File: fOpts, Old: "func mkOptStrs(optName string) []string {\n", New: "var optStrsCache = map[string][]string{}\n\nfunc mkOptStrs(optName string) []string {\n\tif r, ok := optStrsCache[optName]; ok {\n\t\treturn r\n\t}\n"},
+	{Name: "glob2-global-map", Rule: "GLOB-2", File: fOpts, Old: "func mkOptStrs(optName string) []string {\n", New: "var optStrsScratch = &struct{ last []string }{}\n\nfunc mkOptStrs(optName string) []string {\n\tif len(optStrsScratch.last) > 99 {\n\t\treturn optStrsScratch.last\n\t}\n"},
 	{Name: "glob3-goroutine", Rule: "GLOB-3", File: fFlow, Old: "\ts.Do()\n", New: "\tgo s.Do()\n"},
 	{Name: "glob4-order-dependent-range", Rule: "GLOB-4", File: fFsm, Old: "\tfor con, vs := range containers {\n", New: "\tvar last *container.Container\n\tfor con, vs := range containers {\n\t\tif last != nil {\n\t\t\tlast.ValueSetFromEnv = true\n\t\t}\n\t\tlast = con\n"},
 	{Name: "glob5-unstable-priority", Rule: "GLOB-5", File: fArg, Old: "func (*arg) Priority() int {\n\treturn 8", New: "func (a *arg) Priority() int {\n\treturn 8 + len(a.arg.Name)"},
